@@ -276,9 +276,17 @@ def part_bc(ctx, stats):
     cases, recs = [], []
     st = dict(cases=ncases, kinds={}, dims={}, periodic=0, fspread=0, fit_errors={}, nonfinite=0,
               score_errors={}, kde_sent=0, kde_validated=0, kde_skipped_illcond=0, queries=0,
-              far_terms=0, near_terms=0, self_queries=0, bw_checked=0, bw_outside_proviso=0)
+              far_terms=0, near_terms=0, self_queries=0, bw_checked=0, bw_outside_proviso=0,
+              skipped_predicted_nontermination=0, invariance={})
     for _ in range(ncases):
         c = K.gen_fit_case(ctx.rng, ctx.quick)
+        try:
+            nonterm = K.predicted_nontermination(c, K.grid_weights_only(c))
+        except Exception:  # noqa
+            nonterm = False
+        if nonterm:          # covered by the directed probe (known finding), do not wait for the time-out
+            st["skipped_predicted_nontermination"] += 1
+            continue
         est, r = K.fit_impl(c)
         if est is not None:
             K.score_impl(est, c, r)
@@ -293,20 +301,42 @@ def part_bc(ctx, stats):
         if "score_error" in r:
             st["score_errors"][r["score_error"]] = st["score_errors"].get(r["score_error"], 0) + 1
     # ---- search with the property oracles (every case) ------------------------------------
+    seen_cat = set()
+
+    def report(kind, msg, c, r, key=None, extra=None):
+        cat = (kind, key, category(msg))
+        if cat in seen_cat:              # one replay per kind of failure is enough
+            return
+        seen_cat.add(cat)
+        rep = dict(case=c, observed=_slim(r))
+        if extra:
+            rep.update(extra)
+        C.report_violation(ctx, "C17 fails on the implementation (%s): %s" % (kind, msg), rep,
+                           key=key, found_input=True)
+    ctx._c17_report = report
+    inv = st["invariance"]
     for c, r in zip(cases, recs):
         msg, bst = K.oracle_bandwidth(c, r)
         st["bw_checked"] += bst["checked"]
         st["bw_outside_proviso"] += bst["outside_proviso"]
         if msg:
-            C.report_violation(ctx, "C17 fails on the implementation (bandwidth): " + msg,
-                               dict(case=c, observed=_slim(r)), key=bandwidth_key(c, r, msg), found_input=True)
+            report("bandwidth", msg, c, r, key=bandwidth_key(c, r, msg))
             continue
         if "error" in r:
             continue
         msg = K.oracle_mixture(c, r)
         if msg:
-            C.report_violation(ctx, "C17 fails on the implementation (mixture): " + msg,
-                               dict(case=c, observed=_slim(r)), key=mixture_key(c, r, msg), found_input=True)
+            report("mixture", msg, c, r)
+            continue
+        if "score_error" in r:
+            continue
+        # metamorphic statements (translation in free space, consistent permutation, cell images)
+        what = ctx.rng.choice(["images", "images", "permute"] if c["cell"] is not None
+                              else ["translate", "permute"])
+        msg, status, c2 = K.oracle_invariance(c, r, ctx.rng, what)
+        inv[what + ":" + status] = inv.get(what + ":" + status, 0) + 1
+        if msg:
+            report("invariance", msg, c, r, key=invariance_key(c2, msg), extra=dict(transformed_case=c2))
     # ---- correspondence of the mixture formula inside Coq ------------------------------------
     idx = []
     for i, (c, r) in enumerate(zip(cases, recs)):
@@ -361,14 +391,67 @@ def part_bc(ctx, stats):
         msg = K.oracle_mixture(cases[i], recs[i])
         rep = dict(case=cases[i], observed=_slim(recs[i]), correspondence="kde_case_ok (Model/SparseKDEA.v)")
         if msg:
-            C.report_violation(ctx, "C17 fails on the implementation (mixture): " + msg, rep,
-                               key=mixture_key(cases[i], recs[i], msg), found_input=True)
+            ctx._c17_report("mixture", msg, cases[i], recs[i])
         else:
             rep["note"] = "model and implementation disagree but the reference mixture accepts the output"
             C.report_violation(ctx, "C17 part B: correspondence mixture model vs implementation broken",
                                rep, found_input=False)
+    part_c(ctx, cases, recs, st)
     stats["mixture_bandwidth"] = st
     return cases, recs
+
+
+def bw_case_coq(case, rec):
+    grids = sorted(rec["grids"], key=lambda g: g["idx"])
+    eigs = "[" + "; ".join(C.flist([z.real for z in g["eig"]]) for g in grids) + "]"
+    return "bw_case_ok 0x1p-27 0x1p-40 0x1p-27 %s %d%%nat %s %s %s %s %s %s %s" % (
+        ocell(case["cell"]), case["d"], C.fl(float(len(case["D"]))), C.fmat(case["G"]),
+        C.flist(rec["W"]), C.fl(case["kw"].get("fpoints", 0.15)), C.fl(case["kw"].get("fspread", -1.0)),
+        eigs, fmats(rec["bandwidth"]))
+
+
+def part_c(ctx, cases, recs, st):
+    """bandwidth pipeline (tuners, covariance, effdim, oas, Silverman) against fit_bandwidths"""
+    st.update(bw_sent=0, bw_validated=0, bw_skipped_borderline=0, bw_skipped_complex_eig=0,
+              bw_skipped_nonfinite=0, bw_skipped_illcond=0, bw_tuner_calls_max=0)
+    idx = []
+    for i, (c, r) in enumerate(zip(cases, recs)):
+        if "error" in r:
+            continue
+        if not np.all(np.isfinite(np.array(r["bandwidth"], dtype=float))):
+            st["bw_skipped_nonfinite"] += 1
+            continue
+        if any(g.get("eig") is None or any(abs(z.imag) > 0 for z in g["eig"]) for g in r["grids"]):
+            st["bw_skipped_complex_eig"] += 1
+            continue
+        if K.borderline(c, r):
+            st["bw_skipped_borderline"] += 1
+            continue
+        if min(K.reach_of(g["wlocal"]) for g in r["grids"]) < 1e-4:
+            st["bw_skipped_illcond"] += 1        # 1 - sum p^2 cancels: covariance ill-conditioned
+            continue
+        st["bw_tuner_calls_max"] = max(st["bw_tuner_calls_max"], len(r["locpop"]))
+        idx.append(i)
+    per = 30
+    groups = [idx[i:i + per] for i in range(0, len(idx), per)]
+    shards = [SHARD_B + "Definition verdicts : list bool := [\n %s].\nEval vm_compute in (failing verdicts).\n"
+              % ";\n ".join(bw_case_coq(cases[i], recs[i]) for i in g) for g in groups]
+    outs = C.run_shards(ctx.prop + "c", shards)
+    mismatched = []
+    for g, (rc, out) in zip(groups, outs):
+        lists = C.parse_nat_lists(out)
+        if rc != 0 or len(lists) != 1:
+            C.report_violation(ctx, "C17 part C: correspondence shard did not evaluate",
+                               dict(coq_output=out[-1500:]), found_input=False)
+            continue
+        mismatched += [g[k] for k in lists[0]]
+    st["bw_sent"] = len(idx)
+    st["bw_validated"] = len(idx) - len(mismatched)
+    for i in mismatched:
+        rep = dict(case=cases[i], observed=_slim(recs[i]), correspondence="bw_case_ok (Model/SparseKDEA.v)",
+                   note="bandwidth model (repaired behaviour) and implementation disagree; the property oracle accepts the output")
+        C.report_violation(ctx, "C17 part C: correspondence bandwidth model vs implementation broken",
+                           rep, found_input=False)
 
 
 def _slim(r):
@@ -380,11 +463,29 @@ def _slim(r):
     return out
 
 
+def category(msg):
+    import re
+    return re.sub(r"[-+]?[0-9][0-9.e+-]*j?", "#", msg)[:60]
+
+
+KEY_NONTERM = "tuner-nontermination"                 # fit does not return (fraction-of-points tuner)
+KEY_F13 = "periodic-covariance-images"               # F13: circular mean of _covariance, pinned by tests
+
+
 def bandwidth_key(c, r, msg):
+    if r.get("error") in ("Timeout", "OverflowError") and "fspread" not in c["kw"]:
+        return KEY_NONTERM
     return None
 
 
 def mixture_key(c, r, msg):
+    return None
+
+
+def invariance_key(c2, msg):
+    t = c2.get("transform", {})
+    if t.get("kind") == "images" and t.get("which") == "grid":
+        return KEY_F13
     return None
 
 
